@@ -7,6 +7,7 @@ All theorems hold for EVERY configuration `cfg` (hence for the generated one) an
 iteration order of the internal sets.
 -/
 import RichchkModel.Lemmas.PassThrough
+import RichchkModel.Lemmas.RichLemmas
 namespace Richchk.Props.C10
 open Richchk
 
@@ -110,10 +111,104 @@ theorem c10_unmodelled_entries_kept {cfg : RichCfg} {ctx : DecCtx} {rows : List 
               obtain ⟨a, b, c, rfl⟩ := this
               simp [hl, h0, hrow, rawsOf, ih hes, isUnmodelled]
 
+/-- **C10, trigger entries in place.**  In a condition/action list without empty entries before its
+end (the form every editor writes; the other case is the recorded finding
+`trigger-list-gap-compacted`), decoding yields exactly one entry per record, and the entry at the
+position of an unknown / unsupported record is that record, raw: it keeps its position. -/
+theorem c10_entries_in_place_without_gaps {cfg : RichCfg} {ctx : DecCtx} {rows : List TrigRow}
+    {names : List String} {idField enumName flagCodec : String} {recs : List (List Nat)}
+    {es : List REntry}
+    (h : decodeEntries cfg ctx rows names idField enumName flagCodec recs = .ok es)
+    (hnz : ∀ r ∈ recs, fieldOf names r idField ≠ 0) :
+    es.length = recs.length ∧
+    ∀ k (hk : k < recs.length) (hk' : k < es.length),
+      isUnmodelled cfg rows names idField enumName recs[k] = true → es[k] = .raw recs[k] := by
+  induction recs generalizing es with
+  | nil => simp [decodeEntries] at h; subst h; exact ⟨rfl, fun k hk => by simp at hk⟩
+  | cons r rs ih =>
+    have hr0 : fieldOf names r idField ≠ 0 := hnz r (by simp)
+    have hrest : ∀ x ∈ rs, fieldOf names x idField ≠ 0 := fun x hx => hnz x (List.mem_cons_of_mem _ hx)
+    simp only [decodeEntries] at h
+    -- every branch produces `e :: es'` with `es'` the decoding of the rest; `e` is raw in the unmodelled branches
+    have key : ∃ e es', es = e :: es' ∧
+        decodeEntries cfg ctx rows names idField enumName flagCodec rs = .ok es' ∧
+        (isUnmodelled cfg rows names idField enumName r = true → e = .raw r) := by
+      split at h
+      · rename_i hl
+        split at h
+        · simp at h
+        · rename_i es' hes
+          simp at h; subst h
+          exact ⟨_, _, rfl, hes, fun _ => rfl⟩
+      · rename_i m hl
+        split at h
+        · rename_i h0; exact absurd h0 hr0
+        · rename_i h0
+          split at h
+          · rename_i hrow
+            split at h
+            · simp at h
+            · rename_i es' hes
+              simp at h; subst h
+              exact ⟨_, _, rfl, hes, fun _ => rfl⟩
+          · rename_i row hrow
+            split at h
+            · simp at h
+            · rename_i en hen
+              split at h
+              · simp at h
+              · rename_i es' hes
+                simp at h; subst h
+                refine ⟨_, _, rfl, hes, fun hu => ?_⟩
+                simp [isUnmodelled, hl, hrow] at hu
+    obtain ⟨e, es', rfl, hes, hraw⟩ := key
+    obtain ⟨hl, hi⟩ := ih hes hrest
+    refine ⟨by simp [hl], fun k hk hk' hu => ?_⟩
+    cases k with
+    | zero => simpa using hraw (by simpa using hu)
+    | succ k =>
+      simp only [List.getElem_cons_succ] at hu ⊢
+      exact hi k (by simpa using hk) (by simpa using hk') hu
+
 /-- **C10, trigger entries (encode).**  A raw entry is written back as exactly its record. -/
 theorem c10_raw_entry_written_verbatim (cfg : RichCfg) (ctx : EncCtx) (rows : List TrigRow)
     (names : List String) (flagCodec : String) (r : List Nat) :
     encodeEntry cfg ctx rows names flagCodec (.raw r) = .ok r := rfl
+
+/-- **C10, trigger entries in place (encode).**  The k-th entry of a rich trigger is written as the
+k-th condition / action of the emitted trigger; a raw entry therefore reappears verbatim at its
+position, whatever else the trigger or the map contains. -/
+theorem c10_raw_entries_written_in_place {cfg : RichCfg} {ctx : EncCtx} {t : RTrigger} {d : Trigger}
+    (h : encodeTrigger cfg ctx t = .ok d) :
+    (∀ k (hk : k < t.conds.length) r, t.conds[k] = .raw r → d.conds[k]? = some r) ∧
+    (∀ k (hk : k < t.acts.length) r, t.acts[k] = .raw r → d.acts[k]? = some r) := by
+  unfold encodeTrigger at h
+  split at h
+  · cases h
+  · rename_i cs hcs
+    split at h
+    · cases h
+    · split at h
+      · cases h
+      · rename_i as has
+        split at h
+        · cases h
+        · cases h
+          obtain ⟨hlc, hc⟩ := mapR_ok hcs
+          obtain ⟨hla, ha⟩ := mapR_ok has
+          constructor
+          · intro k hk r hr
+            have hk' : k < cs.length := by omega
+            have := hc k hk hk'
+            rw [hr] at this
+            simp [encodeEntry] at this
+            simp [List.getElem?_append_left hk', this]
+          · intro k hk r hr
+            have hk' : k < as.length := by omega
+            have := ha k hk hk'
+            rw [hr] at this
+            simp [encodeEntry] at this
+            simp [List.getElem?_append_left hk', this]
 
 /-- the full in-place statement is FALSE on the current tree (recorded finding
 `trigger-list-gap-compacted`): empty entries are dropped on decode, so a raw record that follows
